@@ -119,6 +119,9 @@ namespace verif {
           return p.second;
         }
       }
+      if (o.empty()) {
+        o.reserve(48); // references returned earlier stay valid while further keys are added (plans have < 48 keys)
+      }
       o.emplace_back(k, J());
       return o.back().second;
     }
